@@ -29,6 +29,11 @@ func worldC03h2(w *World) {
 	for i := range resps {
 		g := genResponse(t, w.Tier == "thorough")
 		g.Interim = nil // net/http's HTTP/2 server does not relay arbitrary 1xx
+		if g.Framing == "cl" && !g.bodyless() && len(g.Trailers) == 0 && t.Rare(1, 2, "trailers-with-length") {
+			// HTTP/2 can carry trailers on a response with a declared length
+			g.Declared = []string{"X-Checksum"}
+			g.Trailers = []hfield{{"X-Checksum", "sum-1"}, {"X-Undeclared", "u2"}}
+		}
 		if g.Framing == "close" {
 			g.Framing = "chunked"
 		}
